@@ -285,7 +285,10 @@ package util
 //@ pure isMinKey(m map[int]float64, k int) bool = k in m && (forall j :: j in m ==> k <= j)
 //@ pure isMaxKey(m map[int]float64, k int) bool = k in m && (forall j :: j in m ==> j <= k)
 //@ pure adjacent(m map[int]float64, a int, b int) bool = a in m && b in m && a < b && (forall j :: j in m ==> j <= a || j >= b)
-//@ pure lerp(y1 float64, y2 float64, x float64, x1 float64, x2 float64) float64 = float64(float32(y1 + ((((x - x1) / (x2 - x1)) * 100.0) / 100.0) * (y2 - y1)))
+//@ pure ratioOf(x float64, x1 float64, x2 float64) float64 = (((x - x1) / (x2 - x1)) * 100.0) / 100.0
+//@ pure lerpProd(y1 float64, y2 float64, x float64, x1 float64, x2 float64) float64 = ratioOf(x, x1, x2) * (y2 - y1)
+//@ pure lerpSum(y1 float64, y2 float64, x float64, x1 float64, x2 float64) float64 = y1 + lerpProd(y1, y2, x, x1, x2)
+//@ pure lerp(y1 float64, y2 float64, x float64, x1 float64, x2 float64) float64 = float64(float32(lerpSum(y1, y2, x, x1, x2)))
 //@ pure interpOf(m map[int]float64, x float64, r float64) bool = (forall k :: isMinKey(m, k) && x <= float64(k) ==> same(r, m[k])) && (forall k :: isMaxKey(m, k) && x >= float64(k) ==> same(r, m[k])) && (forall k :: k in m && x == float64(k) ==> same(r, m[k])) && (forall a, b :: adjacent(m, a, b) && float64(a) < x && x < float64(b) ==> same(r, lerp(m[a], m[b], x, float64(a), float64(b))))
 
 //@ func CalculateInterpolatedCurveValue
@@ -300,6 +303,8 @@ package util
 //@   ghostdo segHit := false
 //@   atcall ghost Ratio: segHit := true
 //@   ensures[C06.interp.hit C07] forall a, b :: adjacent(steps, a, b) && float64(a) < input && input < float64(b) ==> segHit
+//@   ensures[C06.interp.inside C07] segHit ==> (segLo in steps) && (segHi in steps) && segLo < segHi && float64(segLo) < input && input < float64(segHi)
+//@   ensures[C06.interp.outside C07] !segHit ==> exists k :: (k in steps) && same(result, steps[k])
 //@   ensures[C06.interp.formula C07] segHit ==> same(result, lerp(steps[segLo], steps[segHi], input, float64(segLo), float64(segHi)))
 //@   requires stepsOK(steps) && fin(input)
 //@   ensures[C06.range C07] fin(result) && -0.001 <= result && result <= 255.001
@@ -333,3 +338,30 @@ package util
 //@   ensures result != nil
 //@   modifies nothing
 //@   trusted "builds a new map from the given one; touches no device or ghost state (body not verified: its callee needs step preconditions that this caller meets only for the literal {0:0, 255:255})"
+
+// ---- hotter never means slower, step curves (C07) -----------------------------------------------------------
+//@ ghost var segLoSnap int
+//@ ghost var segHiSnap int
+//@ ghost var segHitSnap bool
+//@ func lemmaInterpMonotone
+//@   props C07
+//@   requires stepsOK(steps) && fin(t1) && fin(t2)
+//@   atcall ghost CalculateInterpolatedCurveValue: segLoSnap := segLo
+//@   atcall ghost CalculateInterpolatedCurveValue: segHiSnap := segHi
+//@   atcall ghost CalculateInterpolatedCurveValue: segHitSnap := segHit
+//@   ensures[C07.ratio.unit] segHit ==> 0.0 <= ratioOf(t2, float64(segLo), float64(segHi)) && ratioOf(t2, float64(segLo), float64(segHi)) <= 1.0
+// (attempted, not counted: the hull clause "an interpolated value lies between the two step speeds" for integer
+// step speeds - the exactness of the integer difference under rnd64 does not discharge within the time limit)
+//@   ensures[C07.ratio.mono] segHitSnap && segHit && segLoSnap == segLo && segHiSnap == segHi && t1 <= t2 ==> ratioOf(t1, float64(segLo), float64(segHi)) <= ratioOf(t2, float64(segLo), float64(segHi))
+//@   ensures[C07.prod.mono] segHitSnap && segHit && segLoSnap == segLo && segHiSnap == segHi && t1 <= t2 && steps[segLo] <= steps[segHi] ==> lerpProd(steps[segLo], steps[segHi], t1, float64(segLo), float64(segHi)) <= lerpProd(steps[segLo], steps[segHi], t2, float64(segLo), float64(segHi))
+//@   ensures[C07.sum.mono] segHitSnap && segHit && segLoSnap == segLo && segHiSnap == segHi && t1 <= t2 && steps[segLo] <= steps[segHi] ==> lerpSum(steps[segLo], steps[segHi], t1, float64(segLo), float64(segHi)) <= lerpSum(steps[segLo], steps[segHi], t2, float64(segLo), float64(segHi))
+//@   ensures[C07.interp.segment.expr] segHitSnap && segHit && segLoSnap == segLo && segHiSnap == segHi && t1 <= t2 && steps[segLo] <= steps[segHi] ==> lerp(steps[segLo], steps[segHi], t1, float64(segLo), float64(segHi)) <= lerp(steps[segLo], steps[segHi], t2, float64(segLo), float64(segHi))
+//@   ensures[C07.interp.segment] segHitSnap && segHit && segLoSnap == segLo && segHiSnap == segHi && t1 <= t2 && steps[segLo] <= steps[segHi] ==> r1 <= r2
+//@   modifies anything
+
+//@ func lemmaFindClosestMonotone
+//@   props C07
+//@   requires len(arr) >= 1 && len(arr) <= 1073741824 && strictlyAsc(arr)
+//@   requires inInt32(t1) && inInt32(t2) && (forall k :: 0 <= k && k < len(arr) ==> inInt32(arr[k]))
+//@   ensures[C07.closest] t1 <= t2 ==> r1 <= r2
+//@   modifies nothing
